@@ -358,6 +358,22 @@ def check_base(ctx: Ctx) -> None:
         # direct form: self._defaults[new] = self._defaults.pop(current), under a membership test
         ok = len(ds) == 1 and isinstance(ds[0].value, ast.Call) and norm_stmt(ds[0].value.func) == "self._defaults.pop" and ds[0].value.args and dotted(ds[0].value.args[0]) == cur
     ctx.ob("15.2-rename", con, ok, "the default value moves to the new name", node=(ds or [f])[0], stmt="defaults: pop(current) -> [new]")
+    if ok and ds:
+        # F44: the move is decided by the presence of the name, not by the value of the default (None is a value)
+        from gv.props.shared import literal_facts
+        cfg = cfg_of(f)
+        popped = dotted(dp[0].targets[0]) if len(dp) == 1 else None
+        bad = []
+        for text, _pol in literal_facts(cfg, cfg.node_of(ds[0])).items():
+            try:
+                t = ast.parse(text, mode="eval").body
+            except SyntaxError:
+                continue
+            if isinstance(t, ast.Compare) and isinstance(t.ops[0], (ast.In, ast.NotIn)):
+                continue
+            if (popped and popped in names_in(t)) or any(isinstance(n, ast.Call) and norm_stmt(n.func) in ("self._defaults.get", "self._defaults.pop") for n in ast.walk(t)):
+                bad.append(text)
+        ctx.ob("15.2-rename", con, not bad, "the default moves whatever its value (a default that is None is a default): the move depends on the value through " + "; ".join(bad), node=ds[0], stmt="defaults: moved by presence, not by value")
     # clear
     f = cls.methods["clear"]
     con = cname(BG, "BaseGrammar", "clear")
@@ -600,7 +616,9 @@ WITNESSES = [
     {"name": "delitem-keeps-default", "file": BG, "old": "        self._defaults.pop(name, None)\n        self._required_names.discard(name)\n        self._delitem(name)", "new": "        self._required_names.discard(name)\n        self._delitem(name)", "expect": "15.2"},
     {"name": "restrict-keeps-required", "file": BG, "old": "        self._required_names &= set(names)\n", "new": "", "expect": "15.2"},
     {"name": "rename-drops-required", "file": BG, "old": "            self._required_names.remove(current_name)\n            self._required_names.add(new_name)", "new": "            self._required_names.remove(current_name)", "expect": "15.2"},
-    {"name": "rename-default-under-old-name", "file": BG, "old": "            self._defaults[new_name] = default_value", "new": "            self._defaults[current_name] = default_value", "expect": "15.2"},
+    {"name": "rename-default-under-old-name", "file": BG, "old": "            self._defaults[new_name] = self._defaults.pop(current_name)", "new": "            self._defaults[current_name] = self._defaults.pop(current_name)", "expect": "15.2"},
+    {"name": "rename-moves-the-default-by-value", "file": BG, "old": "        if current_name in self._defaults:\n            self._defaults[new_name] = self._defaults.pop(current_name)", "new": "        default_value = self._defaults.pop(current_name, None)\n        if default_value is not None:\n            self._defaults[new_name] = default_value", "expect": "15.2"},
+    {"name": "rename-moves-the-default-if-truthy", "file": BG, "old": "        if current_name in self._defaults:\n            self._defaults[new_name] = self._defaults.pop(current_name)", "new": "        if self._defaults.get(current_name):\n            self._defaults[new_name] = self._defaults.pop(current_name)", "expect": "15.2"},
     {"name": "clear-keeps-required", "file": BG, "old": "        self._defaults = Defaults(self, {})\n        self._required_names = RequiredNames(self)", "new": "        self._defaults = Defaults(self, {})", "expect": "15.2"},
     {"name": "update-required-ignores-exclusions", "file": BG, "old": "        self._required_names |= (grammar.keys() - excluded_names).intersection(\n            grammar._required_names.get_names_difference(excluded_names)\n        )", "new": "        self._required_names |= set(grammar._required_names)", "expect": "15.2"},
     {"name": "required-add-unchecked", "file": RN, "old": "        self.__grammar._check_name(name)\n        self.__names.add(name)", "new": "        self.__names.add(name)", "expect": "15.3"},
@@ -614,5 +632,6 @@ WITNESSES = [
 TWINS = [
     {"name": "invalidate-through-local-alias", "file": JG, "old": "        del self.__schema_builder[name]\n        self.__init_dependencies()", "new": "        del self.__schema_builder[name]\n        if True:\n            self.__init_dependencies()"},
     {"name": "delitem-order", "file": BG, "old": "        self._defaults.pop(name, None)\n        self._required_names.discard(name)\n        self._delitem(name)", "new": "        self._required_names.discard(name)\n        self._defaults.pop(name, None)\n        self._delitem(name)"},
+    {"name": "rename-default-with-a-local", "file": BG, "old": "        if current_name in self._defaults:\n            self._defaults[new_name] = self._defaults.pop(current_name)", "new": "        if current_name in self._defaults:\n            moved = self._defaults.pop(current_name)\n            self._defaults[new_name] = moved"},
     {"name": "validator-copy-with-braces", "file": JG, "old": "        schema = dict(self.schema)\n", "new": "        schema = {**self.schema}\n"},
 ]
